@@ -1,4 +1,6 @@
 """Per-property configuration: packages, harness files/generators, bounds."""
+import os
+
 MOD = "github.com/gopacket/gopacket"
 
 COMMON_ASSUMPTIONS = [
@@ -6,7 +8,7 @@ COMMON_ASSUMPTIONS = [
     "fmt/log/strconv/hex formatting stubbed: operands evaluated, result an opaque string or fresh error (fmt.Errorf %w keeps the wrapped operand)",
     "append growth modelled as max(2*cap, needed); map iteration in insertion order unless stated",
     "package init of gopacket packages and a whitelist of stdlib packages executed concretely by the interpreter on every run; reads of globals of other packages make a unit 'not encoded'",
-    "solver answers: z3 4.8.12 primary, z3 5.1.0 and cvc5 --solve-bv-as-int as fallbacks on unknown; any (error line makes the answer inconclusive",
+    "solver answers: z3 5.1.0 primary; cvc5 --solve-bv-as-int=sum, then z3 4.8.12 (fresh process, whole path condition, hard process time limit) on unknown; any (error line makes the answer inconclusive",
 ]
 
 
@@ -170,11 +172,12 @@ def ser_types(enum):
 
 def gen_c06(tier, enum):
     n = 14 if tier == "quick" else 24
+    n = int(os.environ.get("VERIF_C06_N", n))
     csum = "false" if tier == "quick" else "true"
     out = ["package layers", "", 'import (', '\t"bytes"', '\t"net"', "", '\t"github.com/gopacket/gopacket"', ")", "", "var _ = bytes.Equal", C06_COMMON]
     for x in ser_types(enum):
         T = x["Name"]
-        nn = C06_SIZES.get(T, {}).get(tier, n)
+        lo, nn = c06_range(T, tier, n)
         setnet = "\tl.SetNetworkLayerForChecksum(c06Net4)\n" if x["SetNet"] else ""
         setnet2 = "\tl2.SetNetworkLayerForChecksum(c06Net4)\n" if x["SetNet"] else ""
         payload_check = 'verifAssert(bytes.Equal(l2.LayerPayload(), pay), "same payload after the round trip")'
@@ -195,12 +198,15 @@ def gen_c06(tier, enum):
 	verifAssert(l.NextHeader == l2.NextHeader, "same next header")"""
         else:
             fields_check = 'verifAssert(verifDeepEqualExcept(&l, &l2, "(?i)checksum|length|len$|crc|fcs"), "same field values after serialize then decode")'
+        # RADIUS: the payload is a view of the EAP-Message attribute values the
+        # layer writes itself, not bytes that follow the layer
+        wpay = "[]byte(nil)" if T in C06_PAYLOAD_INSIDE else "pay"
         if T == "Ethernet":
             # frames are padded to the 60-byte minimum (documented in SerializeTo): the original payload is a prefix, the rest is zero padding
             payload_check = 'c06EthernetPayload(l2.LayerPayload(), pay)'
         out.append(f"""func verif_C06_rt_{T}() {{
 	in := verifBytes("in", {nn})
-	n := verifInt("n", 0, {nn})
+	n := verifInt("n", {lo}, {nn})
 	var l {T}
 	df := &c06DF{{}}
 	if err := l.DecodeFromBytes(in[:n], df); err != nil {{
@@ -211,10 +217,12 @@ def gen_c06(tier, enum):
 		verifReached("decode-truncated")
 		return
 	}}
+	verifReached("decoded")
 {setnet}	buf := gopacket.NewSerializeBuffer()
 	pay := l.LayerPayload()
-	pb, _ := buf.AppendBytes(len(pay))
-	copy(pb, pay)
+	wpay := {wpay}
+	pb, _ := buf.AppendBytes(len(wpay))
+	copy(pb, wpay)
 	if err := l.SerializeTo(buf, gopacket.SerializeOptions{{FixLengths: true, ComputeChecksums: {csum}}}); err != nil {{
 		verifReached("serialize-refused")
 		return
@@ -231,6 +239,9 @@ def gen_c06(tier, enum):
 	{fields_check}
 {setnet2}	buf2 := gopacket.NewSerializeBuffer()
 	pay2 := l2.LayerPayload()
+	if len(wpay) == 0 {{
+		pay2 = nil
+	}}
 	pb2, _ := buf2.AppendBytes(len(pay2))
 	copy(pb2, pay2)
 	if err := l2.SerializeTo(buf2, gopacket.SerializeOptions{{FixLengths: true, ComputeChecksums: {csum}}}); err == nil {{
@@ -244,22 +255,26 @@ def gen_c06(tier, enum):
 
 def gen_c07(tier, enum):
     n = 14 if tier == "quick" else 24
+    n = int(os.environ.get("VERIF_C06_N", n))
     out = ["package layers", "", 'import (', '\t"bytes"', '\t"net"', "", '\t"github.com/gopacket/gopacket"', ")", "", "var _ = bytes.Equal", C06_COMMON]
     for x in ser_types(enum):
         T = x["Name"]
-        nn = C06_SIZES.get(T, {}).get(tier, n)
+        lo, nn = c06_range(T, tier, n)
         setnet = "\tl.SetNetworkLayerForChecksum(c06Net4)\n" if x["SetNet"] else ""
         c07csum = "false" if tier == "quick" else "verifChoose(2) == 1"
+        c07pay = "[]byte(nil)" if T in C06_PAYLOAD_INSIDE else "l.LayerPayload()"
+        prelude = C07_PRELUDE.get(T, "")
         out.append(f"""func verif_C07_ser_{T}() {{
 	in := verifBytes("in", {nn})
-	n := verifInt("n", 0, {nn})
+	n := verifInt("n", {lo}, {nn})
 	var l {T}
-	if err := l.DecodeFromBytes(in[:n], gopacket.NilDecodeFeedback); err != nil {{
+{prelude}	if err := l.DecodeFromBytes(in[:n], gopacket.NilDecodeFeedback); err != nil {{
 		verifReached("decode-err")
 		return
 	}}
+	verifReached("decoded")
 {setnet}	opts := gopacket.SerializeOptions{{FixLengths: verifChoose(2) == 1, ComputeChecksums: {c07csum}}}
-	pay := append([]byte(nil), l.LayerPayload()...)
+	pay := append([]byte(nil), {c07pay}...)
 	fresh := gopacket.NewSerializeBuffer()
 	pb, _ := fresh.AppendBytes(len(pay))
 	copy(pb, pay)
@@ -286,7 +301,31 @@ def gen_c07(tier, enum):
     return [("layers", "c07gen.go", "\n".join(out))]
 
 
-C06_SIZES = {"IPv6HopByHop": {"quick": 10, "thorough": 16}, "IPv6Destination": {"quick": 10, "thorough": 16}, "GRE": {"thorough": 20}, "UDP": {"thorough": 14}}
+C06_SIZES = {"IPv6HopByHop": {"quick": 8, "thorough": 16}, "IPv6Destination": {"quick": 8, "thorough": 16}, "GRE": {"thorough": 20}, "UDP": {"thorough": 14}}
+# smallest input the decoder accepts, for the types whose fixed header is
+# longer than the default bound: the quick tier explores lengths
+# min..min+4 (shorter inputs only reach the decoder's length check, which is
+# C19's subject), the thorough tier 0..max(24, min+8)
+C06_PAYLOAD_INSIDE = {"RADIUS"}
+# ARP: the two address sizes position every later field; they are enumerated
+# (0..3 each) instead of symbolic, everything else stays symbolic
+C07_PRELUDE = {"ARP": "\tin[4], in[5] = byte(verifChoose(4)), byte(verifChoose(4))\n"}
+C06_MIN = {"APSP": 40, "ASFPresencePong": 16, "BFD": 24, "DHCPv4": 240, "Diameter": 20, "EAPOLKey": 95,
+           "ICMPv6NeighborAdvertisement": 20, "ICMPv6NeighborSolicitation": 20, "ICMPv6Redirect": 36, "IPv4": 20, "IPv6": 40,
+           "MDP": 28, "MLDv1Message": 20, "MLDv1MulticastListenerDoneMessage": 20, "MLDv1MulticastListenerQueryMessage": 20,
+           "MLDv1MulticastListenerReportMessage": 20, "MLDv2MulticastListenerQueryMessage": 24, "NTP": 48, "RADIUS": 20, "STP": 35, "TCP": 20}
+
+
+def c06_range(T, tier, n):
+    """(lo, hi) of the symbolic input length for type T."""
+    if T in C06_SIZES and tier in C06_SIZES[T]:
+        return 0, C06_SIZES[T][tier]
+    if T in C06_MIN:
+        m = C06_MIN[T]
+        if os.environ.get("VERIF_C06_N"):
+            return 0, n
+        return (m, m + 4) if tier == "quick" else (0, max(n, m + 8))
+    return 0, n
 
 C02_CORE = [("Ethernet", 22), ("Dot1Q", 12), ("IPv4", 28), ("IPv6", 44), ("TCP", 24), ("UDP", 12), ("ICMPv4", 12), ("ICMPv6", 12), ("GRE", 16), ("ARP", 28)]
 
@@ -397,17 +436,19 @@ PROPS = {
     "C06": {
         "pkgs": [MOD + "/layers"],
         "generate": gen_c06,
+        "must_reach_all": ["decoded"],
         "bounds": "every claimed type with both DecodeFromBytes and SerializeTo: layer obtained by decoding n symbolic bytes (n symbolic in 0..14 quick / 0..24 thorough), written over its payload with FixLengths (and ComputeChecksums in thorough; checksum values themselves are C08's subject), decoded again, then written once more; compared: all exported fields (lists element-wise in order), payload, error, truncation flag",
         "outside": "layers built from in-range field values rather than by decoding; stacks through SerializeLayers; payloads > 64 KiB; layer types Dot11, RadioTap, GTPv1U, Geneve, DNS (counterexamples not triaged or exploration too large: not claimed, see props.C06_NOT_CLAIMED)",
-        "quick": {"timeout": 1500, "maxpaths": 200, "partial_ok_all": True, "unsupported_ok": True},
+        "quick": {"timeout": 500, "qtimeout": 20000, "fbtimeout": 60000, "maxpaths": 200, "partial_ok_all": True, "unsupported_ok": True},
         "thorough": {"timeout": 5000, "maxpaths": 3000, "partial_ok_all": True, "unsupported_ok": True},
     },
     "C07": {
         "pkgs": [MOD + "/layers"],
         "generate": gen_c07,
+        "must_reach_all": ["decoded"],
         "bounds": "every type with both DecodeFromBytes and SerializeTo: layer decoded from n symbolic bytes (n in 0..20 quick / 0..28 thorough), all four FixLengths/ComputeChecksums combinations; serialized into a fresh buffer, a buffer that held 64 symbolic garbage bytes and was cleared, and a pre-sized buffer; outputs compared bytewise",
         "outside": "layer values built through public fields without decoding; layer types Dot11, RadioTap, GTPv1U, Geneve, DNS (not claimed, as in C06)",
-        "quick": {"timeout": 1500, "maxpaths": 200, "partial_ok_all": True, "unsupported_ok": True},
+        "quick": {"timeout": 500, "qtimeout": 20000, "fbtimeout": 60000, "maxpaths": 200, "partial_ok_all": True, "unsupported_ok": True},
         "thorough": {"timeout": 5000, "maxpaths": 3000, "partial_ok_all": True, "unsupported_ok": True},
     },
     "C08": {
